@@ -60,15 +60,17 @@ Theorem C10_stack_structure : forall cfg es c, state_after cfg es = Some c -> WF
 Proof. exact state_WF. Qed.
 Print Assumptions C10_stack_structure.
 
-(* (c) Completeness on the tree grammar of Model/RulesSpec.v ([doc], [wf_doc], [flatten_doc]): without arrays
-   delivered in chunks and without markers / references in map-key position; media and custom arrays delivered in
-   one event are leaves (valid media type / custom type code).  Every well-formed
+(* (c) Completeness on the tree grammar of Model/RulesSpec.v ([doc], [wf_doc], [flatten_doc]).  Every well-formed
    document tree - record types first; one top-level value (not a reference); maps with keyable pairwise-distinct
    keys; edges with three components and non-null source and destination; nodes with a value; records of the
-   declared arity; markers (padding allowed after them) on scalars, markable arrays and containers, nested markers
-   included, with pairwise distinct ids; backward and forward references in value position, each naming a marker
-   of the document; padding and comments wherever a value, a key or a container end may come - is accepted,
-   provided it is within the object, depth and marker limits. *)
+   declared arity; media and custom arrays delivered in one event (valid media type / custom type code); arrays
+   delivered in chunks ([VChunked]: the chunks' data events deliver exactly the announced bytes, string-like
+   contents are valid UTF-8 chunk by chunk, the running size stays within the limit, only the last chunk is
+   final, comments between the chunks of the arrays that are not string-like); markers (padding allowed after
+   them) on scalars, markable arrays and containers, nested markers included, with pairwise distinct ids; backward
+   and forward references in value position, each naming a marker of the document; padding and comments wherever
+   a value, a key or a container end may come - is accepted, provided it is within the object, depth and marker
+   limits.  Keys are single events: no markers, references or chunked arrays in key position. *)
 Theorem C10_wf_documents_accepted :
   forall cfg d, wf_doc cfg d = true ->
     object_usage (flatten_doc cfg d) <= max_object_count cfg -> doc_height d <= max_container_depth cfg ->
@@ -77,20 +79,19 @@ Theorem C10_wf_documents_accepted :
 Proof. exact wf_doc_accepted. Qed.
 Print Assumptions C10_wf_documents_accepted.
 
-(* (d) Soundness on the grammar's alphabet ([in_grammar]: every event except those of arrays delivered in chunks -
-   begin / chunk / data events), for event lists whose markers and references all stand
-   where a value may start ([value_markers_only]: none where the validator expects a map key): a complete
-   document the validator accepts is the flattening of a well-formed document tree, whose height is within the
-   depth limit. *)
+(* (d) Soundness, for every event list whose keys are plain ([plain_keys_only]: where the validator expects a map
+   key or a field name of a record type there is no marker, no reference and no begin of an array in chunks): a
+   complete document the validator accepts is the flattening of a well-formed document tree, whose height is
+   within the depth limit. *)
 Theorem C10_accepted_documents_wf :
-  forall cfg es, in_grammar es = true -> value_markers_only cfg es -> accepts_document cfg es = true ->
+  forall cfg es, plain_keys_only cfg es -> accepts_document cfg es = true ->
     exists d, wf_doc cfg d = true /\ flatten_doc cfg d = es /\ doc_height d <= max_container_depth cfg.
 Proof. exact accepted_is_wf_grammar. Qed.
 Print Assumptions C10_accepted_documents_wf.
 
 (* (c) + (d): on these event lists the validator accepts exactly the well-formed documents within the limits. *)
 Theorem C10_grammar_exact :
-  forall cfg es, in_grammar es = true -> value_markers_only cfg es ->
+  forall cfg es, plain_keys_only cfg es ->
     (accepts_document cfg es = true <->
      exists d, wf_doc cfg d = true /\ flatten_doc cfg d = es /\
                object_usage es <= max_object_count cfg /\ doc_height d <= max_container_depth cfg /\
@@ -98,7 +99,7 @@ Theorem C10_grammar_exact :
 Proof. exact grammar_exact. Qed.
 Print Assumptions C10_grammar_exact.
 
-(* the same without markers and references ([in_fragment]), where no side condition is left *)
+(* the same without markers, references and arrays in chunks ([in_fragment]), where no side condition is left *)
 Theorem C10_fragment_exact :
   forall cfg es, in_fragment es = true ->
     (accepts_document cfg es = true <->
@@ -108,10 +109,10 @@ Theorem C10_fragment_exact :
 Proof. exact fragment_exact. Qed.
 Print Assumptions C10_fragment_exact.
 
-(* What is outside, kept for reference: the statement without the two hypotheses.  It is NOT a theorem of this
-   development and does not hold for the grammar as it stands: arrays delivered in chunks, and markers /
-   references in map-key position, are accepted by the validator but have no tree in [doc]; the grammar would have
-   to be extended to them first. *)
+(* What is outside, kept for reference: the statement without the hypothesis.  It is NOT a theorem of this
+   development and does not hold for the grammar as it stands: markers, references and arrays in chunks in key
+   position (map keys, field names of record types) are accepted by the validator but have no tree in [doc]; the
+   grammar would have to be extended to them first. *)
 Definition C10_fragment_exact_full : Prop :=
   forall cfg es,
     (accepts_document cfg es = true <->
@@ -133,23 +134,42 @@ Proof. vm_compute. reflexivity. Qed.
 Example C10_tree_accepted : accepts_document default_rcfg (flatten_doc default_rcfg C10_tree) = true.
 Proof. vm_compute. reflexivity. Qed.
 (* the side condition of (d) can be decided along the run; the example tree satisfies it *)
-Theorem C10_value_markers_decidable :
-  forall cfg es, value_markers_onlyb cfg es = true -> value_markers_only cfg es.
-Proof. exact value_markers_onlyb_sound. Qed.
-Print Assumptions C10_value_markers_decidable.
-Example C10_tree_in_grammar :
-  in_grammar (flatten_doc default_rcfg C10_tree) = true /\ value_markers_onlyb default_rcfg (flatten_doc default_rcfg C10_tree) = true.
-Proof. vm_compute. split; reflexivity. Qed.
+Theorem C10_plain_keys_decidable :
+  forall cfg es, plain_keys_onlyb cfg es = true -> plain_keys_only cfg es.
+Proof. exact plain_keys_onlyb_sound. Qed.
+Print Assumptions C10_plain_keys_decidable.
+Example C10_tree_plain_keys :
+  plain_keys_onlyb default_rcfg (flatten_doc default_rcfg C10_tree) = true.
+Proof. vm_compute. reflexivity. Qed.
 (* media and custom arrays as leaves (also marked); a marker where a map key is expected is outside *)
 Example C10_media_custom :
   let d := {| d_pre := []; d_top := VList [VLeaf (EMedia [97;47;98] [1;2]); VMarked [109] 0 (VLeaf (ECustomBin 7 [1]));
                                            VLeaf (ECustomText 7 [104;105])] [] |} in
   wf_doc default_rcfg d = true /\ accepts_document default_rcfg (flatten_doc default_rcfg d) = true /\
-  in_grammar (flatten_doc default_rcfg d) = true /\ value_markers_onlyb default_rcfg (flatten_doc default_rcfg d) = true /\
+  plain_keys_onlyb default_rcfg (flatten_doc default_rcfg d) = true /\
   wf_doc default_rcfg {| d_pre := []; d_top := VLeaf (EMedia [97] [1]) |} = false /\
   accepts_document default_rcfg (flatten_doc default_rcfg {| d_pre := []; d_top := VLeaf (EMedia [97] [1]) |}) = false /\
-  value_markers_onlyb default_rcfg [EBeginDoc; EVersion 0; EMap; EMarker [97]; ETrue; ENull; EEnd; EEndDoc] = false /\
+  plain_keys_onlyb default_rcfg [EBeginDoc; EVersion 0; EMap; EMarker [97]; ETrue; ENull; EEnd; EEndDoc] = false /\
   accepts_document default_rcfg [EBeginDoc; EVersion 0; EMap; EMarker [97]; ETrue; ENull; EEnd; EEndDoc] = true.
+Proof. vm_compute. repeat split; reflexivity. Qed.
+
+(* arrays delivered in chunks: a string cut inside its characters by the data events but not by the chunks, with an
+   empty chunk; a marked array of 16-bit elements with a comment between its chunks; an empty media array.  Not
+   well-formed and not accepted: a chunk boundary inside a character; a comment between the chunks of a string.
+   Accepted but outside [plain_keys_only]: a string in chunks as a map key. *)
+Example C10_chunked :
+  let d := {| d_pre := []; d_top := VList
+      [VChunked (EArrayBegin AT_String) [([], 3, true, [[65;195];[169]]); ([], 0, true, []); ([], 3, false, [[226];[130];[172]])];
+       VMarked [109] 0 (VChunked (EArrayBegin AT_Uint16) [([], 1, true, [[1];[2]]); ([(false,[104])], 2, false, [[3;4;5;6]])]);
+       VChunked (EMediaBegin [97;47;98]) [([], 0, false, [])]] [] |} in
+  let bad1 := {| d_pre := []; d_top := VChunked (EArrayBegin AT_String) [([], 1, true, [[195]]); ([], 1, false, [[169]])] |} in
+  let bad2 := {| d_pre := []; d_top := VChunked (EArrayBegin AT_String) [([], 1, true, [[65]]); ([(false,[104])], 1, false, [[66]])] |} in
+  let key := [EBeginDoc; EVersion 0; EMap; EArrayBegin AT_String; EArrayChunk 1 false; EArrayData [65]; ENull; EEnd; EEndDoc] in
+  wf_doc default_rcfg d = true /\ accepts_document default_rcfg (flatten_doc default_rcfg d) = true /\
+  plain_keys_onlyb default_rcfg (flatten_doc default_rcfg d) = true /\
+  wf_doc default_rcfg bad1 = false /\ accepts_document default_rcfg (flatten_doc default_rcfg bad1) = false /\
+  wf_doc default_rcfg bad2 = false /\ accepts_document default_rcfg (flatten_doc default_rcfg bad2) = false /\
+  accepts_document default_rcfg key = true /\ plain_keys_onlyb default_rcfg key = false.
 Proof. vm_compute. repeat split; reflexivity. Qed.
 
 (* a time value the time library does not accept (tagged token) is neither well-formed nor accepted, as a value or as a key *)
